@@ -1,2 +1,28 @@
 import SpoxModel.Props.C10
 /-! `#print axioms` for every property theorem of C10; parsed by ./check. -/
+#print axioms C10.enum_exact
+#print axioms C10.field_layout
+#print axioms C10.fromArray_total
+#print axioms C10.roundtrip
+#print axioms C10.canon_spec
+#print axioms C10.roundtrip_exact
+#print axioms C10.const_type_exact
+#print axioms C10.const_requested_dtype
+#print axioms C10.generated_kinds_exact
+#print axioms C10.generated_classes_complete
+#print axioms C10.generated_guards
+#print axioms C10.attr_kind_exact
+#print axioms C10.validate_spec
+#print axioms C10.wrong_kind_typeerror
+#print axioms C10.attr_int_exact
+#print axioms C10.attr_ints_exact
+#print axioms C10.attr_floats_exact
+#print axioms C10.attr_strings_exact
+#print axioms C10.attr_tensor_exact
+#print axioms C10.captured
+#print axioms C10.alias_not_captured
+#print axioms C10.shallow_freeze_not_captured
+#print axioms C10.generated_capture_ok
+#print axioms C10.generated_capture_complete
+#print axioms C10.captured_at_call
+#print axioms C10.captured_at_call_ast
